@@ -54,7 +54,7 @@ func (mc multiCore) With(fields []Field) Core {
 }
 
 func (mc multiCore) Level() Level {
-	minLvl := _maxLevel // mc is never empty
+	minLvl := InvalidLevel // mc is never empty
 	for i := range mc {
 		if lvl := LevelOf(mc[i]); lvl < minLvl {
 			minLvl = lvl
